@@ -157,5 +157,355 @@ theorem c_root_or_parent (o' : Obj) (ho' : o' ∈ Dump.objs DN) : objClause "roo
       · rw [shI_toNat pos _ h1]; unfold shN; split <;> omega
       · rw [← shI_nat]; exact fun e => h3 (shI_inj pos _ _ e)
 
+theorem obj?_m1 (x : Dump) : x.obj? (-1) = none := rfl
+
+theorem upd_nextSib (o : Obj) : (U o).nextSib = if ((o.id : Int) == lastId d p) = true then (pos : Int) else shI pos o.nextSib := rfl
+
+include h hpos in
+theorem c_siblings_ordered (o' : Obj) (ho' : o' ∈ Dump.objs DN) : objClause "siblings-ordered" DN (mkAux DN) o' = true := by
+  simp only [objClause, objClauses, List.find?, String.reduceBEq]
+  rcases (mem_after d p pos k name skip o').1 ho' with rfl | ⟨o, ho, rfl⟩
+  · have e : (NEW).nextSib = -1 := rfl
+    rw [e, obj?_m1]
+  · have hold := h.objc "siblings-ordered" o ho
+    simp only [objClause, objClauses, List.find?, String.reduceBEq] at hold
+    rw [upd_nextSib]
+    by_cases hc : ((o.id : Int) == lastId d p) = true
+    · rw [if_pos hc, after_obj?_pos d p pos k name skip hpos]
+      show (if (isNormal o.type && isNormal tMISC) = true then _ else if (isMemory o.type && isMemory tMISC) = true then _ else true) = true
+      have e1 : isNormal tMISC = false := by decide
+      have e2 : isMemory tMISC = false := by decide
+      simp only [e1, e2, Bool.and_false, Bool.false_eq_true, if_false]
+    · rw [if_neg hc, after_obj?_sh d p pos k name skip hpos]
+      cases hq : d.obj? o.nextSib with
+      | none => rfl
+      | some q =>
+        simp only [hq, Option.map_some] at hold ⊢
+        exact hold
+
+/-! ### the previous last Misc child -/
+
+theorem lastId_cases (d : Dump) (p : Nat) : (lastMisc d p = none ∧ lastId d p = -1) ∨
+    ∃ L, lastMisc d p = some L ∧ L ∈ d.objs ∧ lastId d p = (L.id : Int) ∧ L.parent = (p : Int) ∧ L.type = tMISC ∧ L.nextSib = -1 := by
+  unfold lastId
+  cases hL : lastMisc d p with
+  | none => exact Or.inl ⟨rfl, rfl⟩
+  | some L =>
+    refine Or.inr ⟨L, rfl, ?_, rfl, ?_⟩
+    · exact List.mem_of_find?_eq_some hL
+    · have := List.find?_some hL
+      simp only [Bool.and_eq_true, beq_iff_eq] at this
+      exact ⟨this.1.1, this.1.2, this.2⟩
+
+include h in
+theorem lastId_obj (c : Obj) (hc : c ∈ d.objs) (e : (c.id : Int) = lastId d p) :
+    lastMisc d p = some c ∧ c.parent = (p : Int) ∧ c.type = tMISC ∧ c.nextSib = -1 := by
+  rcases lastId_cases d p with ⟨_, h2⟩ | ⟨L, h1, h2, h3, h4, h5, h6⟩
+  · omega
+  · have : c = L := by
+      have a := WF.get_id h hc
+      have b := WF.get_id h h2
+      have : c.id = L.id := by omega
+      rw [this, b] at a; exact (Option.some.inj a).symm
+    subst this
+    exact ⟨h1, h4, h5, h6⟩
+
+include h in
+theorem not_last_of_normal (c : Obj) (hc : c ∈ d.objs) (hn : c.type ≠ tMISC) : ((c.id : Int) == lastId d p) = false := by
+  rw [beq_eq_false_iff_ne]
+  intro e
+  exact hn (lastId_obj h p c hc e).2.2.1
+
+/-! ### children arrays -/
+
+theorem upd_children (o : Obj) : (U o).children = o.children.map (shI pos) := rfl
+theorem upd_prevSib (o : Obj) : (U o).prevSib = shI pos o.prevSib := rfl
+
+theorem map_sh_getD (l : List Int) (i : Nat) (dflt : Int) (hd : dflt < 0) :
+    ((l.map (shI pos))[i]?).getD dflt = shI pos ((l[i]?).getD dflt) := by
+  rw [List.getElem?_map, shI_getD pos _ _ hd]
+
+include h hpos in
+theorem c_children_array (o' : Obj) (ho' : o' ∈ Dump.objs DN) : objClause "children-array" DN (mkAux DN) o' = true := by
+  simp only [objClause, objClauses, List.find?, String.reduceBEq]
+  rcases (mem_after d p pos k name skip o').1 ho' with rfl | ⟨o, ho, rfl⟩
+  · rfl
+  · have hold := h.objc "children-array" o ho
+    simp only [objClause, objClauses, List.find?, String.reduceBEq] at hold
+    simp only [Bool.and_eq_true, beq_iff_eq, List.all_eq_true, List.mem_range] at hold ⊢
+    obtain ⟨⟨⟨h1, h2⟩, h3⟩, h4⟩ := hold
+    refine ⟨⟨⟨?_, ?_⟩, ?_⟩, ?_⟩
+    · rw [upd_children, List.length_map]; exact h1
+    · show shI pos o.firstChild = ((o.children.map (shI pos)).head?).getD (-1)
+      rw [h2, List.head?_map, shI_getD pos _ _ (by omega)]
+    · show shI pos o.lastChild = ((o.children.map (shI pos)).getLast?).getD (-1)
+      rw [h3, List.getLast?_map, shI_getD pos _ _ (by omega)]
+    · intro i hi
+      have hc := h4 i hi
+      rw [upd_children, map_sh_getD pos _ _ _ (by omega), after_obj?_sh d p pos k name skip hpos]
+      cases hq : d.obj? ((o.children[i]?).getD (-2)) with
+      | none => rw [hq] at hc; cases hc
+      | some c =>
+        have hcm : c ∈ d.objs := Dump.mem_of_obj? hq
+        simp only [hq, Option.map_some, Bool.and_eq_true, beq_iff_eq] at hc ⊢
+        obtain ⟨⟨⟨⟨c1, c2⟩, c3⟩, c4⟩, c5⟩ := hc
+        refine ⟨⟨⟨⟨?_, c2⟩, c3⟩, ?_⟩, ?_⟩
+        · rw [upd_parent, c1, upd_id, shI_nat]
+        · rw [upd_prevSib, c4]
+          split
+          · exact shI_m1 pos
+          · rw [map_sh_getD pos _ _ _ (by omega)]
+        · have hn : c.type ≠ tMISC := by
+            intro e; rw [e] at c3; exact absurd c3 (by decide)
+          rw [upd_nextSib, if_neg (by rw [not_last_of_normal h p c hcm hn]; simp), c5, map_sh_getD pos _ _ _ (by omega)]
+
+/-! ### special lists -/
+
+theorem misc_kinds : isNormal tMISC = false ∧ isMemory tMISC = false ∧ isIO tMISC = false ∧ isMisc tMISC = true := by decide
+
+include h in
+theorem last_rank (L q : Obj) (hL : lastMisc d p = some L) (hq : d.obj? (p : Int) = some q) : L.rank + 1 = q.miscarity := by
+  rcases lastId_cases d p with ⟨h1, _⟩ | ⟨L', h1, h2, _, h4, h5, h6⟩
+  · rw [h1] at hL; cases hL
+  · rw [h1] at hL; cases hL
+    have c := h.objc "special-list-links" L h2
+    simp only [objClause, objClauses, List.find?, String.reduceBEq, h4, hq, h5, h6, obj?_m1, misc_kinds.1, misc_kinds.2.1,
+      misc_kinds.2.2.1, Bool.false_eq_true, if_false, Bool.and_eq_true, beq_iff_eq, decide_eq_true_eq] at c
+    exact c.1.2.2
+
+include h hp hpos in
+/-- the parent has no Misc child exactly when no previous last Misc child is found (direction used for the list heads) -/
+theorem last_none_of_zero (q : Obj) (hq : d.obj? (p : Int) = some q) (h0 : q.miscarity = 0) : lastId d p = -1 := by
+  rcases lastId_cases d p with ⟨_, h2⟩ | ⟨L, h1, _, _, _, _, _⟩
+  · exact h2
+  · have := last_rank h p L q h1 hq; omega
+
+/-- one `chk` of the clause special-list-heads, for a list the call does not change -/
+theorem chk_sh (hpos : pos ≤ d.objs.length) (oid : Nat) (first : Int) (ar : Nat) (kind : Nat → Bool)
+    (hold : (if (ar == 0) = true then first == -1 else match d.obj? first with
+        | none => false
+        | some c => c.parent == (oid : Int) && c.rank == 0 && kind c.type && c.prevSib == -1) = true) :
+    (if (ar == 0) = true then shI pos first == -1 else match (DN).obj? (shI pos first) with
+        | none => false
+        | some c => c.parent == ((shN pos oid : Nat) : Int) && c.rank == 0 && kind c.type && c.prevSib == -1) = true := by
+  by_cases ha : (ar == 0) = true
+  · simp only [ha, if_true, beq_iff_eq] at hold ⊢
+    rw [hold]; exact shI_m1 pos
+  · simp only [ha, if_false] at hold ⊢
+    rw [after_obj?_sh d p pos k name skip hpos]
+    cases hq : d.obj? first with
+    | none => rw [hq] at hold; cases hold
+    | some c =>
+      rw [hq] at hold
+      have hold' : (c.parent == (oid : Int) && c.rank == 0 && kind c.type && c.prevSib == -1) = true := hold
+      show ((U c).parent == ((shN pos oid : Nat) : Int) && c.rank == 0 && kind c.type && (U c).prevSib == -1) = true
+      simp only [Bool.and_eq_true, beq_iff_eq] at hold' ⊢
+      obtain ⟨⟨⟨c1, c2⟩, c3⟩, c4⟩ := hold'
+      refine ⟨⟨⟨?_, c2⟩, c3⟩, ?_⟩
+      · rw [upd_parent, c1, shI_nat]
+      · rw [upd_prevSib, c4]; exact shI_m1 pos
+
+include h hp hpos in
+theorem c_special_list_heads (o' : Obj) (ho' : o' ∈ Dump.objs DN) : objClause "special-list-heads" DN (mkAux DN) o' = true := by
+  simp only [objClause, objClauses, List.find?, String.reduceBEq]
+  rcases (mem_after d p pos k name skip o').1 ho' with rfl | ⟨o, ho, rfl⟩
+  · rfl
+  · have hold := h.objc "special-list-heads" o ho
+    simp only [objClause, objClauses, List.find?, String.reduceBEq] at hold
+    simp only [Bool.and_eq_true] at hold ⊢
+    obtain ⟨⟨h1, h2⟩, h3⟩ := hold
+    refine ⟨⟨chk_sh p pos k name skip hpos o.id o.memFirst o.marity isMemory h1,
+             chk_sh p pos k name skip hpos o.id o.ioFirst o.ioarity isIO h2⟩, ?_⟩
+    by_cases hop : o.id = p
+    · -- the parent: one more Misc child
+      obtain ⟨q, hq, hqid, hqm⟩ := parent_some h p pos hp hpos
+      have hoq : o = q := by
+        have a := h.obj?_id ho; rw [hop, hq] at a; exact (Option.some.inj a).symm
+      subst hoq
+      show (if (updMiscarity p o == 0) = true then updMiscFirst p pos o == -1 else match (DN).obj? (updMiscFirst p pos o) with
+        | none => false
+        | some c => c.parent == ((shN pos o.id : Nat) : Int) && c.rank == 0 && isMisc c.type && c.prevSib == -1) = true
+      have e1 : updMiscarity p o = o.miscarity + 1 := by unfold updMiscarity; simp [hop]
+      have e0 : (o.miscarity + 1 == 0) = false := by rw [beq_eq_false_iff_ne]; omega
+      rw [e1, e0]
+      simp only [Bool.false_eq_true, if_false]
+      by_cases hz : o.miscarity = 0
+      · have e2 : updMiscFirst p pos o = (pos : Int) := by unfold updMiscFirst; simp [hop, hz]
+        rw [e2, after_obj?_pos d p pos k name skip hpos]
+        have hl := last_none_of_zero h p pos hp hpos o hq hz
+        have hr : (NEW).rank = 0 := by
+          show ((d.objs[p]?).map (·.miscarity)).getD 0 = 0
+          rw [← obj?_nat, hq]; exact hz
+        have hps : (NEW).prevSib = -1 := hl
+        simp only [hr, hps, Bool.and_eq_true, beq_iff_eq]
+        refine ⟨⟨⟨?_, trivial⟩, ?_⟩, trivial⟩
+        · show (p : Int) = ((shN pos o.id : Nat) : Int)
+          rw [hop, shN_of_lt pos p hp]
+        · rfl
+      · have e2 : updMiscFirst p pos o = shI pos o.miscFirst := by unfold updMiscFirst; simp [hz]
+        rw [e2]
+        have := chk_sh p pos k name skip hpos o.id o.miscFirst o.miscarity isMisc h3
+        have e3 : (o.miscarity == 0) = false := by rw [beq_eq_false_iff_ne]; exact hz
+        simpa only [e3, Bool.false_eq_true, if_false] using this
+    · have e1 : updMiscarity p o = o.miscarity := by unfold updMiscarity; simp [hop]
+      have e2 : updMiscFirst p pos o = shI pos o.miscFirst := by unfold updMiscFirst; simp [hop]
+      show (if (updMiscarity p o == 0) = true then updMiscFirst p pos o == -1 else match (DN).obj? (updMiscFirst p pos o) with
+        | none => false
+        | some c => c.parent == ((shN pos o.id : Nat) : Int) && c.rank == 0 && isMisc c.type && c.prevSib == -1) = true
+      rw [e1, e2]
+      exact chk_sh p pos k name skip hpos o.id o.miscFirst o.miscarity isMisc h3
+
+/-! ### special-list-links: uniqueness and existence of the last Misc child -/
+
+theorem sameKind_misc (t : Nat) : sameKind t tMISC = isMisc t := by
+  simp [sameKind, misc_kinds.1, misc_kinds.2.1, misc_kinds.2.2.1, misc_kinds.2.2.2]
+
+theorem isMisc_eq (t : Nat) (ht : isMisc t = true) : t = tMISC := by
+  simpa [isMisc] using ht
+
+include h in
+theorem eq_of_id (A B : Obj) (hA : A ∈ d.objs) (hB : B ∈ d.objs) (e : A.id = B.id) : A = B := by
+  have a := WF.get_id h hA
+  have b := WF.get_id h hB
+  rw [e, b] at a; exact (Option.some.inj a).symm
+
+include h in
+/-- a non-root object has a parent in the dump -/
+theorem parent_of_misc (A : Obj) (hA : A ∈ d.objs) (hT : A.type = tMISC) : ∃ q, d.obj? A.parent = some q := by
+  have c := h.objc "parent-kind" A hA
+  simp only [objClause, objClauses, List.find?, String.reduceBEq] at c
+  cases hq : d.obj? A.parent with
+  | some q => exact ⟨q, rfl⟩
+  | none =>
+    exfalso
+    simp only [hq, beq_iff_eq] at c
+    have := h.topc "root-is-machine"
+    simp only [topClause, topClauses, List.find?, String.reduceBEq, Bool.and_eq_true, beq_iff_eq] at this
+    have a := WF.get_id h hA
+    rw [c] at a
+    rw [a] at this
+    simp only [Bool.and_eq_true, beq_iff_eq] at this
+    rw [hT] at this
+    exact absurd this.2.1.1 (by decide)
+
+/-- the clause special-list-links read for a Misc object -/
+structure MiscLinks (d : Dump) (A q : Obj) : Prop where
+  lt : A.rank < q.miscarity
+  first : (A.rank == 0) = (q.miscFirst == (A.id : Int))
+  prev0 : (A.rank == 0) = (A.prevSib == -1)
+  next : (match d.obj? A.nextSib with
+    | none => A.nextSib == -1 && A.rank + 1 == q.miscarity
+    | some nx => nx.parent == A.parent && isMisc nx.type && nx.rank == A.rank + 1 && nx.prevSib == (A.id : Int)) = true
+  prev : (match d.obj? A.prevSib with
+    | none => A.prevSib == -1
+    | some pv => pv.parent == A.parent && isMisc pv.type && pv.rank + 1 == A.rank && pv.nextSib == (A.id : Int)) = true
+
+include h in
+theorem misc_links (A q : Obj) (hA : A ∈ d.objs) (hT : A.type = tMISC) (hq : d.obj? A.parent = some q) : MiscLinks d A q := by
+  have c := h.objc "special-list-links" A hA
+  simp only [objClause, objClauses, List.find?, String.reduceBEq, hq, hT, misc_kinds.1, misc_kinds.2.1,
+    misc_kinds.2.2.1, Bool.false_eq_true, if_false, Bool.and_eq_true, beq_iff_eq, decide_eq_true_eq, sameKind_misc] at c
+  exact ⟨c.1.1.1.1, c.1.1.1.2, c.1.1.2, c.1.2, c.2⟩
+
+include h in
+theorem misc_rank_inj : ∀ (r : Nat) (A B : Obj), A ∈ d.objs → B ∈ d.objs → A.type = tMISC → B.type = tMISC →
+    A.parent = B.parent → A.rank = r → B.rank = r → A = B := by
+  intro r
+  induction r with
+  | zero =>
+    intro A B hA hB tA tB hpar rA rB
+    obtain ⟨q, hq⟩ := parent_of_misc h A hA tA
+    have la := misc_links h A q hA tA hq
+    have lb := misc_links h B q hB tB (hpar ▸ hq)
+    have fa := la.first; have fb := lb.first
+    rw [rA] at fa; rw [rB] at fb
+    simp only [beq_self_eq_true] at fa fb
+    have ea : q.miscFirst = (A.id : Int) := by simpa using fa.symm
+    have eb : q.miscFirst = (B.id : Int) := by simpa using fb.symm
+    exact eq_of_id h A B hA hB (by omega)
+  | succ r ih =>
+    intro A B hA hB tA tB hpar rA rB
+    obtain ⟨q, hq⟩ := parent_of_misc h A hA tA
+    have la := misc_links h A q hA tA hq
+    have lb := misc_links h B q hB tB (hpar ▸ hq)
+    have pa := la.prev; have pb := lb.prev
+    have za := la.prev0; have zb := lb.prev0
+    have ra0 : (A.rank == 0) = false := by rw [beq_eq_false_iff_ne]; omega
+    have rb0 : (B.rank == 0) = false := by rw [beq_eq_false_iff_ne]; omega
+    rw [ra0] at za; rw [rb0] at zb
+    cases hpa : d.obj? A.prevSib with
+    | none => rw [hpa] at pa; have pa' : (A.prevSib == -1) = true := pa; rw [pa'] at za; cases za
+    | some PA =>
+      cases hpb : d.obj? B.prevSib with
+      | none => rw [hpb] at pb; have pb' : (B.prevSib == -1) = true := pb; rw [pb'] at zb; cases zb
+      | some PB =>
+        rw [hpa] at pa; rw [hpb] at pb
+        simp only [Bool.and_eq_true, beq_iff_eq] at pa pb
+        have e : PA = PB := ih PA PB (Dump.mem_of_obj? hpa) (Dump.mem_of_obj? hpb) (isMisc_eq _ pa.1.1.2) (isMisc_eq _ pb.1.1.2)
+          (by rw [pa.1.1.1, pb.1.1.1, hpar]) (by omega) (by omega)
+        subst e
+        exact eq_of_id h A B hA hB (by have := pa.2; have := pb.2; omega)
+
+include h in
+/-- walking the next_sibling links from a Misc child of `q` reaches one without next sibling -/
+theorem last_exists (q : Obj) : ∀ (n : Nat) (A : Obj), A ∈ d.objs → A.type = tMISC → d.obj? A.parent = some q → A.rank + n + 1 = q.miscarity →
+    ∃ L, L ∈ d.objs ∧ L.parent = A.parent ∧ L.type = tMISC ∧ L.nextSib = -1 := by
+  intro n
+  induction n with
+  | zero =>
+    intro A hA tA hq hr
+    have la := misc_links h A q hA tA hq
+    have nx := la.next
+    cases hn : d.obj? A.nextSib with
+    | none =>
+      rw [hn] at nx; simp only [Bool.and_eq_true, beq_iff_eq] at nx
+      exact ⟨A, hA, rfl, tA, nx.1⟩
+    | some N =>
+      exfalso
+      rw [hn] at nx; simp only [Bool.and_eq_true, beq_iff_eq] at nx
+      have ln := misc_links h N q (Dump.mem_of_obj? hn) (isMisc_eq _ nx.1.1.2) (by rw [nx.1.1.1]; exact hq)
+      have := ln.lt; omega
+  | succ n ih =>
+    intro A hA tA hq hr
+    have la := misc_links h A q hA tA hq
+    have nx := la.next
+    cases hn : d.obj? A.nextSib with
+    | none =>
+      exfalso
+      rw [hn] at nx; simp only [Bool.and_eq_true, beq_iff_eq] at nx
+      omega
+    | some N =>
+      rw [hn] at nx; simp only [Bool.and_eq_true, beq_iff_eq] at nx
+      obtain ⟨L, h1, h2, h3, h4⟩ := ih N (Dump.mem_of_obj? hn) (isMisc_eq _ nx.1.1.2) (by rw [nx.1.1.1]; exact hq) (by omega)
+      exact ⟨L, h1, by rw [h2, nx.1.1.1], h3, h4⟩
+
+include h hp hpos in
+/-- the parent has Misc children exactly when a previous last Misc child is found -/
+theorem last_some_of_pos (q : Obj) (hq : d.obj? (p : Int) = some q) (h0 : q.miscarity ≠ 0) : lastId d p ≠ -1 := by
+  have hqm := Dump.mem_of_obj? hq
+  have hqid : (q.id : Int) = p := (WF.obj?_some h hq).1
+  have c := h.objc "special-list-heads" q hqm
+  simp only [objClause, objClauses, List.find?, String.reduceBEq, Bool.and_eq_true] at c
+  have c3 := c.2
+  have e0 : (q.miscarity == 0) = false := by rw [beq_eq_false_iff_ne]; exact h0
+  simp only [e0, Bool.false_eq_true, if_false] at c3
+  cases hc : d.obj? q.miscFirst with
+  | none => rw [hc] at c3; cases c3
+  | some C =>
+    rw [hc] at c3
+    have c3' : (C.parent == (q.id : Int) && C.rank == 0 && isMisc C.type && C.prevSib == -1) = true := c3
+    simp only [Bool.and_eq_true, beq_iff_eq] at c3'
+    have hCq : d.obj? C.parent = some q := by rw [c3'.1.1.1, hqid]; exact hq
+    obtain ⟨L, h1, h2, h3, h4⟩ := last_exists h q (q.miscarity - 1) C (Dump.mem_of_obj? hc) (isMisc_eq _ c3'.1.2) hCq
+      (by have := c3'.1.1.2; omega)
+    intro hnone
+    rcases lastId_cases d p with ⟨g1, _⟩ | ⟨L', _, _, g3, _, _, _⟩
+    · unfold lastMisc at g1
+      have := List.find?_eq_none.1 g1 L h1
+      apply this
+      simp only [Bool.and_eq_true, beq_iff_eq]
+      exact ⟨⟨by rw [h2, c3'.1.1.1, hqid], h3⟩, h4⟩
+    · omega
+
 end
 end Hw.Topo.MiscIns
